@@ -542,6 +542,21 @@ def str_concat(I, parts):
     r = zs[0]
     for z in zs[1:]:
         r = core.S_CAT(r, z)
+    # A4: x + sep + y is stripped when x has no leading and y no trailing blank and sep holds a non-blank
+    if len(zs) >= 3 and any(isinstance(p, str) and p.strip() != "" for p in parts[1:-1]):
+        sf = I.strip_fn
+        first, last = to_z3(parts[0]) if not isinstance(parts[0], str) else None, \
+            to_z3(parts[-1]) if not isinstance(parts[-1], str) else None
+        conds = []
+        if first is not None:
+            conds.append(sf(first) == first)
+        elif parts[0].lstrip() != parts[0]:
+            conds.append(z3.BoolVal(False))
+        if last is not None:
+            conds.append(sf(last) == last)
+        elif parts[-1].rstrip() != parts[-1]:
+            conds.append(z3.BoolVal(False))
+        I.ctx.assume(z3.Implies(z3.And(conds) if conds else z3.BoolVal(True), sf(r) == r))
     return r
 
 
